@@ -6,7 +6,7 @@ import json
 import random
 
 from . import tlc, decio
-from .core import Outcome, ensure_repo_on_path, finish, pmap, Machinery
+from .core import Outcome, ensure_repo_on_path, finish, pmap, Machinery, chunked
 from .pdgdata import tables as pdg_tables
 from .chainio import META_POOL
 
@@ -78,6 +78,7 @@ def build_fs(args):
     return {"kind": "table", "cid": cid, "fs": fs, "obs": {"table": bag(t), "dd": bag(dd)}, "text": text}
 
 
+@chunked()
 def judge(cases, wd, o, what, data):
     tf = wd / f"trace_{len(list(wd.glob('trace_*.json')))}.json"
     tf.write_text(json.dumps([{k: v for k, v in c.items() if k not in ("cid", "text")} for c in cases]))
